@@ -83,6 +83,8 @@ def _classes():
 
         def write_n(self, value):
             self._hw('write', 'n', value)
+            if self.__dict__.get('probing'):     # (the later range-check probes of the harness)
+                return value
             if value == 6.5:        # a driver that refuses: still handed over exactly once
                 raise HardwareError('the hardware refuses 6.5')
             if value == 7.5:
@@ -259,6 +261,7 @@ def project(obj, entries, node=False):
     else:
         del st['writes']
     st['mprops'] = {'mp': _tick(obj.mp), 'op': _tick(obj.op), 'export': _tick(bool(obj.export))}
+    obj.probing = True
     for p in PARAMS:      # later range checks (last: they change the value)
         pr = []
         for n in (st['lo'][p] - 2, st['lo'][p], st['hi'][p], st['hi'][p] + 2):
